@@ -2449,16 +2449,16 @@ class Wallet(object):
             ck.encoding = encoding
             newpath = topkey.path
             n_items = len(str(dbkey.path).split('/'))
+            if not account_id:
+                account_id = 0 if ("account'" not in self.key_path or
+                                   self.key_path.index("account'") >= len(fullpath)) \
+                    else int(fullpath[self.key_path.index("account'")][:-1])
+            change_pos = [self.key_path.index(chg) for chg in ["change", "change'"] if chg in self.key_path]
+            change = None if not change_pos or change_pos[0] >= len(fullpath) else (
+                int(fullpath[change_pos[0]].strip("'")))
             for lvl in fullpath[n_items:]:
                 ck = ck.subkey_for_path(lvl, network=network)
                 newpath += '/' + lvl
-                if not account_id:
-                    account_id = 0 if ("account'" not in self.key_path or
-                                       self.key_path.index("account'") >= len(fullpath)) \
-                        else int(fullpath[self.key_path.index("account'")][:-1])
-                change_pos = [self.key_path.index(chg) for chg in ["change", "change'"] if chg in self.key_path]
-                change = None if not change_pos or change_pos[0] >= len(fullpath) else (
-                    int(fullpath[change_pos[0]].strip("'")))
                 if name and len(fullpath) == len(newpath.split('/')):
                     key_name = name
                 else:
